@@ -19,6 +19,16 @@
 // idle network source); a timed source with src_idle does the same after its n items. Once a call of
 // f or the source has failed, a pending Next is no longer excused by the source being idle: with
 // nothing of f outstanding it must have returned the error at quiescence ("never silence").
+//
+// Time passes (virtual time, hours of it): script step "sleep" (V seconds with everything durably blocked:
+// the source idle in Next honouring its context, calls of f gated, the consumer inside Next or away) and the
+// timed fields src_pause_* / f_pause_* / cons_pause_* (the source blocks for that long before delivering an
+// item, f runs for that long honouring its context, the consumer stays away). Afterwards the scenario goes
+// on - the source delivers / ends, f returns - and the results must be complete, in order and without any
+// error: the context the library hands to the source and to f must not end by the library's own doing
+// ("not the library's own cancellation"). No context of the harness has a deadline: the caller's context is a
+// hand-made one with a sentinel error (errParent), so context.DeadlineExceeded / context.Canceled reported
+// by Next can only have been made by the library.
 package c14
 
 import (
@@ -45,7 +55,7 @@ import (
 // scenarios
 
 type Step struct {
-	Op string `json:"op"` // next | nextx | expire | close | pcancel | item | end | serr | sclose | fok | ferr
+	Op string `json:"op"` // next | nextx | expire | close | pcancel | item | end | serr | sclose | fok | ferr | sleep (V seconds of virtual time)
 	I  int    `json:"i,omitempty"`
 	V  int    `json:"v,omitempty"`
 }
@@ -73,16 +83,38 @@ type Scenario struct {
 	ParentCancel int    `json:"parent_cancel,omitempty"`
 	SrcCloseLat  int    `json:"src_close_lat,omitempty"` // the source's Close takes this many ms of virtual time
 	SrcIdle      bool   `json:"src_idle,omitempty"`      // after its n items the source blocks in Next until its context is done
+	// pauses (seconds of virtual time): the source is idle (blocked in Next, honouring its context) for
+	// src_pause_s before it delivers item src_pause_at; the call of f for item f_pause_at takes f_pause_s longer
+	// (honouring its context); the consumer stays away for cons_pause_s before its call number cons_pause_at
+	SrcPauseAt  int `json:"src_pause_at,omitempty"`
+	SrcPauseS   int `json:"src_pause_s,omitempty"`
+	FPauseAt    int `json:"f_pause_at,omitempty"`
+	FPauseS     int `json:"f_pause_s,omitempty"`
+	ConsPauseAt int `json:"cons_pause_at,omitempty"`
+	ConsPauseS  int `json:"cons_pause_s,omitempty"`
 	// who owns the MapStream: "" = the consumer itself; "map" = a stream.Map wrapper (identity) whose Next /
 	// Close the consumer calls; "collect" = the reducer stream.Collect, which must have closed everything
 	// by the time it returns (the C09 clause for the other owners reachable from here)
 	Owner string `json:"owner,omitempty"`
+	// kind "stress": a real-threads configuration (`stress mapiter <P> <B> <n> <rounds> [how]`, see stress_test.go)
+	// and how it was found
+	Stress string   `json:"stress,omitempty"`
+	Trace  []string `json:"trace,omitempty"`
 }
 
 func (sc *Scenario) key() string {
 	b, _ := json.Marshal(sc)
 	return string(b)
 }
+
+// pauses: the virtual time the scenario itself lets pass (the watchdogs of timed scenarios are relative to it).
+func (sc *Scenario) pauses() time.Duration {
+	return time.Duration(sc.SrcPauseS+sc.FPauseS+sc.ConsPauseS) * time.Second
+}
+
+// watchdog: "every latency is a few milliseconds, so this long without a return means blocked for good" -
+// one hour beyond what the scenario itself sleeps.
+func (sc *Scenario) watchdog() time.Duration { return time.Hour + sc.pauses() }
 
 func (sc *Scenario) latency(i int) time.Duration {
 	if sc.LatMax <= 0 {
@@ -116,6 +148,30 @@ type fErr struct{ k int }
 func (e *fErr) Error() string { return fmt.Sprintf("f error %d", e.k) }
 
 var errCons = errors.New("consumer context expired")
+
+// errParent is the error of the context the caller passes to MapStream, once the caller has cancelled it.
+// Hand-made (no deadline, no context.Canceled): whatever context.DeadlineExceeded / context.Canceled comes
+// out of Next was made by the library.
+var errParent = errors.New("the caller cancelled the context it passed to MapStream")
+
+type parentCtx struct {
+	done chan struct{}
+	once sync.Once
+}
+
+func newParentCtx() *parentCtx                     { return &parentCtx{done: make(chan struct{})} }
+func (c *parentCtx) cancel()                       { c.once.Do(func() { close(c.done) }) }
+func (c *parentCtx) Deadline() (time.Time, bool)   { return time.Time{}, false }
+func (c *parentCtx) Done() <-chan struct{}         { return c.done }
+func (c *parentCtx) Value(interface{}) interface{} { return nil }
+func (c *parentCtx) Err() error {
+	select {
+	case <-c.done:
+		return errParent
+	default:
+		return nil
+	}
+}
 
 // consCtx is the context handed to one Next call: no goroutines, a sentinel error.
 type consCtx struct {
@@ -197,10 +253,12 @@ type env struct {
 	closedRet   bool
 	yielded     int
 	maxInFlight int
-	parent      context.Context
+	parent      *parentCtx
 	viols       []Viol
 	reqPar      int
 	bound       int
+	slept       time.Duration // virtual time the scenario itself let pass (sleep steps, pauses)
+	nSleeps     int           // sleep steps taken so far
 	abandon     bool // the scenario is being abandoned with goroutines blocked for good
 	rescued     bool // the scenario closed the stream itself to free a stuck call: what that call returns is not evidence
 }
@@ -261,11 +319,25 @@ func (s *srcStream) Next(ctx context.Context) (int, error) {
 		}
 	} else {
 		r = e.timedSrc(pos)
-		if e.sc.SrcIdle && pos >= e.sc.N && r.end {
+		ctxEnded := false
+		if e.sc.SrcPauseS > 0 && pos == e.sc.SrcPauseAt {
+			// idle for a long time (nothing to yield yet), honouring the context; then it goes on
+			t := time.NewTimer(time.Duration(e.sc.SrcPauseS) * time.Second)
+			select {
+			case <-t.C:
+			case <-ctx.Done():
+				t.Stop()
+				r = gateRes{err: ctx.Err()}
+				ctxEnded = true
+			}
+		}
+		switch {
+		case ctxEnded:
+		case e.sc.SrcIdle && pos >= e.sc.N && r.end:
 			// an idle source: nothing more to yield for now, neither ended nor failed
 			<-ctx.Done()
 			r = gateRes{err: ctx.Err()}
-		} else if e.sc.SrcLat > 0 {
+		case e.sc.SrcLat > 0:
 			t := time.NewTimer(time.Duration(e.sc.SrcLat) * time.Millisecond)
 			select {
 			case <-t.C:
@@ -273,7 +345,7 @@ func (s *srcStream) Next(ctx context.Context) (int, error) {
 				t.Stop()
 				r = gateRes{err: ctx.Err()}
 			}
-		} else if ctx.Err() != nil {
+		case ctx.Err() != nil:
 			r = gateRes{err: ctx.Err()}
 		}
 	}
@@ -393,12 +465,22 @@ func (e *env) fEnter(x int) *fcall {
 	return c
 }
 
-func (e *env) fBody(c *fcall) gateRes {
+func (e *env) fBody(ctx context.Context, c *fcall) gateRes {
 	if e.sc.Kind == "script" {
 		return <-c.gate
 	}
 	if d := e.sc.latency(c.idx); d > 0 {
 		time.Sleep(d)
+	}
+	if e.sc.FPauseS > 0 && c.idx == e.sc.FPauseAt && ctx != nil {
+		// a call that takes very long and honours its context
+		t := time.NewTimer(time.Duration(e.sc.FPauseS) * time.Second)
+		select {
+		case <-t.C:
+		case <-ctx.Done():
+			t.Stop()
+			return gateRes{err: ctx.Err()}
+		}
 	}
 	for _, k := range e.sc.FailF {
 		if k == c.idx && e.sc.Variant == "stream" {
@@ -426,6 +508,8 @@ func (e *env) errName(err error) string {
 		return "end"
 	case err == errCons:
 		return "cons"
+	case errors.Is(err, errParent):
+		return "parent"
 	case errors.As(err, &se):
 		return fmt.Sprintf("S%d", se.k)
 	case errors.As(err, &fe):
@@ -624,7 +708,14 @@ func (e *env) finalMonitors() {
 				ok = true
 			}
 			if !ok {
-				e.viol("error-provenance", fmt.Sprintf("Next returned %q (%s), which neither the source nor a call of f returned", r.err, e.errName(r.err)), map[string]interface{}{"err": e.errName(r.err)})
+				made := ""
+				if errors.Is(r.err, context.DeadlineExceeded) || errors.Is(r.err, context.Canceled) {
+					made = "; no context of the caller has a deadline or was cancelled with this error: the library made it itself"
+					if e.slept > 0 {
+						made += fmt.Sprintf(" (the scenario let %v of virtual time pass while the source was idle / f was running / the consumer was away)", e.slept)
+					}
+				}
+				e.viol("error-provenance", fmt.Sprintf("Next returned %q (%s), which neither the source nor a call of f returned%s", r.err, e.errName(r.err), made), map[string]interface{}{"err": e.errName(r.err)})
 				e.viol("c08-other-error", fmt.Sprintf("Next returned %q (%s) instead of the error that occurred", r.err, e.errName(r.err)), map[string]interface{}{"err": e.errName(r.err)})
 			}
 		}
@@ -800,17 +891,14 @@ func (e *env) bubble(t *testing.T, sc *Scenario, r *vlib.Rand, maxSteps int, out
 	synctest.Test(t, func(t *testing.T) {
 		start := time.Now()
 		e.start = start
-		deadline := start.Add(time.Hour)
-		if sc.Kind == "timed" {
-			// far beyond the one-hour watchdogs of runTimed, so that the parent's deadline never rescues a
-			// blocked call at the very instant the watchdog looks
-			deadline = start.Add(1000 * time.Hour)
-			if sc.ParentCancel > 0 {
-				deadline = start.Add(time.Duration(sc.ParentCancel) * time.Millisecond)
-			}
+		// the caller's context: cancelled by the script step "pcancel" / after parent_cancel ms (timed), never
+		// by a deadline of its own
+		parent := newParentCtx()
+		defer parent.cancel()
+		if sc.Kind == "timed" && sc.ParentCancel > 0 {
+			tm := time.AfterFunc(time.Duration(sc.ParentCancel)*time.Millisecond, parent.cancel)
+			defer tm.Stop()
 		}
-		parent, cancelParent := context.WithDeadline(context.Background(), deadline)
-		defer cancelParent()
 		e.parent = parent
 		var st stream.Stream[int]
 		var it iterator.Iterator[int]
@@ -818,14 +906,14 @@ func (e *env) bubble(t *testing.T, sc *Scenario, r *vlib.Rand, maxSteps int, out
 			if sc.Variant == "stream" {
 				st = parallel.MapStream[int, int](parent, &srcStream{e}, sc.P, sc.B, func(ctx context.Context, x int) (int, error) {
 					c := e.fEnter(x)
-					r := e.fBody(c)
+					r := e.fBody(ctx, c)
 					e.fLeave(c, r)
 					return r.v, r.err
 				})
 			} else {
 				it = parallel.MapIterator[int, int](&srcIter{e}, sc.P, sc.B, func(x int) int {
 					c := e.fEnter(x)
-					r := e.fBody(c)
+					r := e.fBody(nil, c)
 					e.fLeave(c, r)
 					return r.v
 				})
@@ -920,8 +1008,20 @@ func (e *env) bubble(t *testing.T, sc *Scenario, r *vlib.Rand, maxSteps int, out
 				if sc.Variant != "stream" || parent.Err() != nil {
 					return false
 				}
-				time.Sleep(time.Until(deadline))
+				parent.cancel()
 				out.Lines = append(out.Lines, "pcancel")
+			case "sleep":
+				// virtual time passes with everything durably blocked; not an action of the LTS: the observation
+				// that follows must be the one before
+				if s.V <= 0 || s.V > 200000 {
+					return false
+				}
+				time.Sleep(time.Duration(s.V) * time.Second)
+				e.mu.Lock()
+				e.slept += time.Duration(s.V) * time.Second
+				e.nSleeps++
+				e.mu.Unlock()
+				out.Lines = append(out.Lines, "time")
 			case "item":
 				if gate == nil {
 					return false
@@ -1084,6 +1184,10 @@ func (e *env) choose(r *vlib.Rand) (Step, bool) {
 	if sc.Variant == "stream" && e.parent.Err() == nil && !e.closedRet {
 		cs = append(cs, cand{Step{Op: "pcancel"}, 1})
 	}
+	if e.nSleeps < 2 && !e.closedRet {
+		// time passes: a minute, an hour, a day - with whatever is pending now staying pending
+		cs = append(cs, cand{Step{Op: "sleep", V: idleSeconds[r.Intn(len(idleSeconds))]}, 1})
+	}
 	if len(cs) == 0 {
 		return Step{}, false
 	}
@@ -1096,18 +1200,21 @@ func (e *env) choose(r *vlib.Rand) (Step, bool) {
 
 // runTimed: the consumer loop of a timed scenario (runs in the bubble's main goroutine).
 func (e *env) runTimed(sc *Scenario, cmds chan cmd, out *Outcome, st stream.Stream[int]) {
+	e.mu.Lock()
+	e.slept = sc.pauses()
+	e.mu.Unlock()
 	if sc.Variant == "stream" && sc.Owner == "collect" {
 		e.mu.Lock()
 		e.cons = "next"
 		e.mu.Unlock()
 		cmds <- cmd{op: "collect"}
-		hour := time.NewTimer(time.Hour)
+		hour := time.NewTimer(sc.watchdog())
 		select {
 		case <-e.notify:
 			hour.Stop()
 		case <-hour.C:
 			e.mu.Lock()
-			e.viol("deadlock", "stream.Collect over the MapStream did not return within an hour of virtual time (every latency is a few milliseconds)", map[string]interface{}{"ctx": "live"})
+			e.viol("deadlock", "stream.Collect over the MapStream did not return within an hour of virtual time beyond the scenario's own pauses (every latency is a few milliseconds)", map[string]interface{}{"ctx": "live"})
 			if failed := e.failedNow(); failed != "" && len(e.outstandingF()) == 0 && e.srcInClose == 0 {
 				what := fmt.Sprintf("%s, no call of f is outstanding, yet the reducer has not returned the error within an hour of virtual time (source idle: %v)", failed, e.srcInCall > 0)
 				e.viol("error-silent", what, map[string]interface{}{"ctx": "live", "source_idle": e.srcInCall > 0})
@@ -1116,7 +1223,7 @@ func (e *env) runTimed(sc *Scenario, cmds chan cmd, out *Outcome, st stream.Stre
 			e.rescued = true
 			e.mu.Unlock()
 			go st.Close()
-			rescue := time.NewTimer(time.Hour)
+			rescue := time.NewTimer(sc.watchdog())
 			select {
 			case <-e.notify:
 				rescue.Stop()
@@ -1139,6 +1246,9 @@ func (e *env) runTimed(sc *Scenario, cmds chan cmd, out *Outcome, st stream.Stre
 		if sc.CloseAfter > 0 && y >= want {
 			break
 		}
+		if sc.ConsPauseS > 0 && guard == sc.ConsPauseAt {
+			time.Sleep(time.Duration(sc.ConsPauseS) * time.Second) // the consumer is away for a long time
+		}
 		var ctx *consCtx
 		var tm *time.Timer
 		if sc.Variant == "stream" {
@@ -1156,13 +1266,13 @@ func (e *env) runTimed(sc *Scenario, cmds chan cmd, out *Outcome, st stream.Stre
 		cmds <- cmd{op: "next", ctx: ctx}
 		// every latency is a few ms of virtual time, so an hour without a result means that Next
 		// is blocked for good
-		hour := time.NewTimer(time.Hour)
+		hour := time.NewTimer(sc.watchdog())
 		select {
 		case <-e.notify:
 			hour.Stop()
 		case <-hour.C:
 			e.mu.Lock()
-			e.viol("deadlock", "Next did not return within an hour of virtual time (every latency is a few milliseconds)", map[string]interface{}{"ctx": "live"})
+			e.viol("deadlock", "Next did not return within an hour of virtual time beyond the scenario's own pauses (every latency is a few milliseconds)", map[string]interface{}{"ctx": "live"})
 			if failed := e.failedNow(); failed != "" && len(e.outstandingF()) == 0 && e.srcInClose == 0 {
 				what := fmt.Sprintf("%s, no call of f is outstanding, yet Next has not reported the error within an hour of virtual time (source idle: %v)", failed, e.srcInCall > 0)
 				e.viol("error-silent", what, map[string]interface{}{"ctx": "live", "source_idle": e.srcInCall > 0})
@@ -1177,7 +1287,7 @@ func (e *env) runTimed(sc *Scenario, cmds chan cmd, out *Outcome, st stream.Stre
 				e.rescued = true
 				e.mu.Unlock()
 				go st.Close()
-				rescue := time.NewTimer(time.Hour)
+				rescue := time.NewTimer(sc.watchdog())
 				select {
 				case <-e.notify:
 					rescue.Stop()
@@ -1210,7 +1320,7 @@ func (e *env) runTimed(sc *Scenario, cmds chan cmd, out *Outcome, st stream.Stre
 		e.cons = "close"
 		e.mu.Unlock()
 		cmds <- cmd{op: "close"}
-		hour := time.NewTimer(time.Hour)
+		hour := time.NewTimer(sc.watchdog())
 		select {
 		case <-e.notify:
 			hour.Stop()
@@ -1308,6 +1418,52 @@ func directed() []Scenario {
 	return out
 }
 
+// idleSeconds: how long things stay idle - just under / over a minute, an hour, more than a day.
+var idleSeconds = []int{59, 61, 3600, 90000}
+
+// directedIdle: virtual time passes (59 s, 61 s, 1 h, 25 h) while (a) the source is idle - blocked in Next,
+// honouring its context - with a Next of the consumer pending, (b) a call of f is running, (c) the consumer
+// is away with results waiting; then the scenario continues. Results must be complete, in order, without
+// any error (script: also trace conformance; timed: f honours its context, the source honours its context).
+func directedIdle() []Scenario {
+	var out []Scenario
+	for _, d := range idleSeconds {
+		for _, pb := range [][2]int{{1, 1}, {2, 0}} {
+			p, b := pb[0], pb[1]
+			mk := func(steps ...Step) {
+				out = append(out, Scenario{Kind: "script", Variant: "stream", P: p, B: b, Steps: steps})
+			}
+			// (a) the source idle, a Next pending; it delivers; idle again; it ends
+			mk(Step{Op: "next"}, Step{Op: "sleep", V: d}, Step{Op: "item", V: 1000}, Step{Op: "fok", I: 0, V: 100},
+				Step{Op: "next"}, Step{Op: "sleep", V: d}, Step{Op: "end"})
+			// (b) a call of f running (the source idle as well), Next pending
+			mk(Step{Op: "item", V: 1000}, Step{Op: "next"}, Step{Op: "sleep", V: d}, Step{Op: "fok", I: 0, V: 100},
+				Step{Op: "next"}, Step{Op: "end"})
+			// (c) the consumer away while a result waits; then again with the next one
+			mk(Step{Op: "item", V: 1000}, Step{Op: "fok", I: 0, V: 100}, Step{Op: "sleep", V: d}, Step{Op: "next"},
+				Step{Op: "item", V: 1001}, Step{Op: "fok", I: 1, V: 101}, Step{Op: "sleep", V: d}, Step{Op: "next"},
+				Step{Op: "end"}, Step{Op: "next"})
+		}
+		// the iterator has no context; time passing must not matter either
+		out = append(out, Scenario{Kind: "script", Variant: "iter", P: 1, B: 1, Steps: []Step{{Op: "item", V: 1000}, {Op: "next"},
+			{Op: "sleep", V: d}, {Op: "fok", I: 0, V: 100}, {Op: "item", V: 1001}, {Op: "sleep", V: d}, {Op: "fok", I: 1, V: 101}, {Op: "next"}, {Op: "end"}, {Op: "next"}}})
+		base := Scenario{Kind: "timed", Variant: "stream", P: 2, B: 1, N: 4, LatMode: 1, LatMax: 5}
+		sc := base
+		sc.SrcPauseAt, sc.SrcPauseS = 2, d
+		out = append(out, sc)
+		sc = base
+		sc.FPauseAt, sc.FPauseS = 1, d
+		out = append(out, sc)
+		sc = base
+		sc.ConsPauseAt, sc.ConsPauseS = 2, d
+		out = append(out, sc)
+		sc = base // all three, the reducer owns the stream
+		sc.SrcPauseAt, sc.SrcPauseS, sc.FPauseAt, sc.FPauseS, sc.Owner = 3, d, 0, d, "collect"
+		out = append(out, sc)
+	}
+	return out
+}
+
 func genTimed(r *vlib.Rand, big bool) *Scenario {
 	sc := &Scenario{Kind: "timed"}
 	sc.Variant = []string{"stream", "stream", "iter"}[r.Intn(3)]
@@ -1354,6 +1510,19 @@ func genTimed(r *vlib.Rand, big bool) *Scenario {
 		}
 		if r.Chance(1, 2) {
 			sc.SrcCloseLat = []int{1, 3, 20}[r.Intn(3)]
+		}
+		if sc.N > 0 && r.Chance(1, 6) {
+			// time passes: the source idle / a call of f very slow / the consumer away, for a minute .. a day
+			d := idleSeconds[r.Intn(len(idleSeconds))]
+			switch r.Intn(3) {
+			case 0:
+				sc.SrcPauseAt, sc.SrcPauseS = r.Intn(sc.N+1), d
+			case 1:
+				sc.FPauseAt, sc.FPauseS = r.Intn(sc.N), d
+			default:
+				sc.ConsPauseAt, sc.ConsPauseS = r.Intn(sc.N+1), d
+			}
+			sc.ConsTimeout = 0 // (a consumer retrying every few ms for a day would only burn the step budget)
 		}
 		switch r.Intn(8) {
 		case 0:
@@ -1502,6 +1671,10 @@ func TestVerif(t *testing.T) {
 			fmt.Println("cannot read replay:", err)
 			os.Exit(2)
 		}
+		if sc.Kind == "stress" {
+			replayStress(&sc)
+			return
+		}
 		o := runScenario(t, &sc, nil, 0)
 		fmt.Printf("replay of %s\n", sc.key())
 		for _, l := range o.Lines {
@@ -1527,6 +1700,11 @@ func TestVerif(t *testing.T) {
 	}
 
 	defer res.Write(env.Out) // also when the run is cut short below
+	// real threads first: MapIterator's check-then-park window (see stress_test.go). Its findings are written
+	// out at once, and again after every phase below: a crash of the library inside a bubble ("fatal error:
+	// sync: unlock of unlocked mutex" cannot be recovered) must not take what was already found with it.
+	stressMapIter(t, res, env)
+	res.Write(env.Out)
 	for _, f := range vlib.CorpusFiles(env.Corpus, ".json") {
 		b, err := os.ReadFile(f)
 		if err != nil {
@@ -1535,6 +1713,9 @@ func TestVerif(t *testing.T) {
 		var sc Scenario
 		if json.Unmarshal(b, &sc) != nil {
 			t.Fatalf("bad corpus file %s", f)
+		}
+		if sc.Kind == "stress" {
+			continue // real-threads configurations are not bubble scenarios
 		}
 		if nFatal >= maxFatal {
 			break
@@ -1605,6 +1786,7 @@ func TestVerif(t *testing.T) {
 			}
 		}
 	}
+	res.Write(env.Out)
 	dir := directed()
 	for i := range dir {
 		if nFatal >= maxFatal {
@@ -1614,6 +1796,16 @@ func TestVerif(t *testing.T) {
 		o := check(t, &dir[i], nil, ms, res, env)
 		res.Case(dir[i].key(), nontrivial(&dir[i], o), nil)
 	}
+	idle := directedIdle()
+	for i := range idle {
+		if nFatal >= maxFatal {
+			break
+		}
+		res.Count("directed-idle")
+		o := check(t, &idle[i], nil, ms, res, env)
+		res.Case(idle[i].key(), nontrivial(&idle[i], o) || o.Stats["results"] >= 2, nil)
+	}
+	res.Write(env.Out)
 	r := vlib.NewRand(env.Seed)
 	deadline := env.Deadline()
 	big := env.Thorough() || env.Deep
@@ -1667,6 +1859,15 @@ func TestVerif(t *testing.T) {
 		}
 		if sc.SrcIdle {
 			res.Count("timed-idle-source")
+		}
+		if sc.pauses() > 0 {
+			res.Count("timed-with-long-pause")
+		}
+		for _, st := range sc.Steps {
+			if st.Op == "sleep" {
+				res.Count("script-with-sleep")
+				break
+			}
 		}
 		if sc.Owner != "" {
 			res.Count("owner-" + sc.Owner)
